@@ -476,7 +476,7 @@ REMOVE_EMPTY = {"kFlowDecomp": "remove_empty_paths", "kLeastAbsErrors": "remove_
 KEY_MFDC_STARTS = "MinFlowDecompCycles:node:additional_starts_ends:ValueError"
 
 
-def node_instance(rng, cls):
+def node_instance(rng, cls, focus=False):
     """tiny node-weighted instance for class `cls`: graph, generating routes, kwargs"""
     kind, has_k, cons_kw, se, fam, rkey = CLASSES[cls]
     cyc = (kind == "cyc") or (kind == "any" and rng.random() < 0.4)
@@ -554,12 +554,30 @@ def node_instance(rng, cls):
     if fam != "cover" and not any("flow" in d and v not in ign for v, d in G.nodes(data=True)):
         # the property (and the classes) need at least one weighted element that is not ignored
         v = rng.choice(list(G.nodes)); G.nodes[v]["flow"] = max(1, flow[v]); ign = [x for x in ign if x != v]
+    scaling = {}
+    if fam in ("err", "mef") and (focus or rng.random() < 0.5):
+        scaling = {v: rng.choice([0, 0.5, 1, 0]) for v in G if rng.random() < (0.5 if focus else 0.35)}
+        live = [v for v, d in G.nodes(data=True) if "flow" in d and v not in ign and scaling.get(v, 1) != 0]
+        if not live:                                    # keep one weighted element that is neither ignored nor scaled to 0
+            cand = [v for v, d in G.nodes(data=True) if "flow" in d and v not in ign]
+            if cand: scaling.pop(rng.choice(cand), None)
+        if scaling: kw["error_scaling"] = scaling
+    if cls in ("kMinPathError", "kMinPathErrorCycles", "kLeastAbsErrorsCycles") and rng.random() < (0.6 if focus else 0.3):
+        kw["k"] = None                                  # k defaults to the width of the internal graph
     if ign: kw["elements_to_ignore"] = ign
     if starts: kw["additional_starts"] = starts
     if ends: kw["additional_ends"] = ends
     if fam in ("fd", "err"):
         kw["weight_type"] = rng.choice([int, float])
-    return {"G": G, "cyc": cyc, "routes": routes, "weights": ws, "kw": kw, "cons": cons, "ign": ign, "starts": starts, "ends": ends}
+    return {"G": G, "cyc": cyc, "routes": routes, "weights": ws, "kw": kw, "cons": cons, "ign": ign, "starts": starts, "ends": ends, "scaling": scaling}
+
+
+def jsonable_kw(v):
+    if isinstance(v, type):
+        return v.__name__
+    if isinstance(v, dict):                              # error_scaling: keys are nodes or (expanded) edges
+        return [[list(k) if isinstance(k, tuple) else k, x] for k, x in v.items()]
+    return v
 
 
 def solve_obs(cls, G, kw, node_mode, want_remove_empty=False):
@@ -646,13 +664,13 @@ def build_explicit(xn, xe):
     return H
 
 
-def e2_cases(ctx, per_class):
-    reqs = []; cases = []
-    for cls in CLASSES:
+def e2_cases(ctx, per_class, classes=None, stream="e2"):
+    reqs = []; cases = []; pending_lp = []
+    for cls in (classes or CLASSES):
         kind, has_k, cons_kw, se, fam, rkey = CLASSES[cls]
         for i in range(per_class):
-            rng = ctx.rng("e2:" + cls, i)
-            inst = node_instance(rng, cls)
+            rng = ctx.rng(stream + ":" + cls, i)
+            inst = node_instance(rng, cls, focus=(stream != "e2"))
             if inst is None:
                 continue
             G = inst["G"]
@@ -669,6 +687,8 @@ def e2_cases(ctx, per_class):
             reqs.append("ne_cons " + common.toks(wg, len(inst["cons"]), [[len(c)] + [w_elem(e) for e in c] for c in inst["cons"]]))
             reqs.append("ne_starts " + common.toks(wg, w_strs(inst["starts"])))
             reqs.append("ne_ends " + common.toks(wg, w_strs(inst["ends"])))
+            for v in inst["scaling"]:                   # error_scaling keys are translated by the model's get_expanded_edge
+                reqs.append("ne_elem " + common.toks(wg, w_elem(v)))
             cases.append((cls, i, inst, base))
     outs = ctx.model.run(reqs)
     # the user-ignored nodes are appended to the constructor's list by the model as well (second batch)
@@ -682,7 +702,13 @@ def e2_cases(ctx, per_class):
         rc = Rd(outs[base + 1]); rs = Rd(outs[base + 2]); re_ = Rd(outs[base + 3])
         if not (rc.ok and rs.ok and re_.ok):
             parsed.append(None); reqs2.append("ne_exppath 0"); continue
-        parsed.append((xn, xe, ign, rc.list(lambda: rc.list(rc.edge)), rs.list(rs.str), re_.list(re_.str)))
+        xscale = {}
+        for j, v in enumerate(inst["scaling"]):
+            rv = Rd(outs[base + 4 + j])
+            xscale[rv.edge() if rv.ok else None] = inst["scaling"][v]
+        if None in xscale:
+            parsed.append(None); reqs2.append("ne_exppath 0"); continue
+        parsed.append((xn, xe, ign, rc.list(lambda: rc.list(rc.edge)), rs.list(rs.str), re_.list(re_.str), xscale))
         Gm = inst["G"]
         reqs2.append("ne_ignore " + common.toks(w_graph(Gm), w_edges(ign), len(inst["ign"]), [w_elem(e) for e in inst["ign"]]))
     outs2 = ctx.model.run(reqs2)
@@ -691,10 +717,10 @@ def e2_cases(ctx, per_class):
         G = inst["G"]; kw = inst["kw"]
         eng = "E2_" + cls
         info = {"class": cls, "case": i, "nodes": [[v, items(d)] for v, d in G.nodes(data=True)], "edges": [[u, v, items(d)] for u, v, d in G.edges(data=True)],
-                "kwargs": {k: (v.__name__ if isinstance(v, type) else v) for k, v in kw.items()}, "gen_routes": inst["routes"], "gen_weights": inst["weights"]}
+                "kwargs": {k: jsonable_kw(v) for k, v in kw.items()}, "gen_routes": inst["routes"], "gen_weights": inst["weights"]}
         if pr is None:
             ctx.report(f"model could not expand a valid instance for {cls}", info, concrete=False); continue
-        xn, xe, ign0, xcons, xstarts, xends = pr
+        xn, xe, ign0, xcons, xstarts, xends, xscale = pr
         r2 = Rd(o2)
         if not r2.ok:
             ctx.report(f"model could not expand the ignore list for {cls}", info, concrete=False); continue
@@ -705,7 +731,8 @@ def e2_cases(ctx, per_class):
         nobs = solve_obs(cls, G, kw, True, want_remove_empty=cls in REMOVE_EMPTY)
         # ---- explicit instance from the MODEL's expansion, edge mode
         H = build_explicit(xn, xe)
-        ekw = {k: v for k, v in kw.items() if k not in (cons_kw, "elements_to_ignore", "additional_starts", "additional_ends")}
+        ekw = {k: v for k, v in kw.items() if k not in (cons_kw, "elements_to_ignore", "additional_starts", "additional_ends", "error_scaling")}
+        if xscale: ekw["error_scaling"] = dict(xscale)
         if cons_kw and inst["cons"]: ekw[cons_kw] = [list(c) for c in xcons]
         ekw["elements_to_ignore"] = sorted(set(ign))
         if fill:
@@ -728,7 +755,7 @@ def e2_cases(ctx, per_class):
         else:
             eobs = solve_obs(cls, H, ekw, False, want_remove_empty=cls in REMOVE_EMPTY)
         info["explicit"] = {"nodes": [[v, items(dict(a))] for v, a in xn], "edges": [[u, v, items(dict(a))] for (u, v), a in xe],
-                            "kwargs": {k: (v.__name__ if isinstance(v, type) else v) for k, v in ekw.items()}}
+                            "kwargs": {k: jsonable_kw(v) for k, v in ekw.items()}}
         summ = lambda o: {k: o.get(k) for k in ("exc", "solved", "n", "objective", "error", "routes", "weights", "slacks", "full_routes", "full_weights", "re_routes", "re_weights", "re_slacks") if k in o}
         info["node_mode"] = summ(nobs); info["edge_mode_on_expansion"] = summ(eobs)
         if os.environ.get("C11_TRACE"):
@@ -763,7 +790,13 @@ def e2_cases(ctx, per_class):
                 ctx.report(f"{cls} node mode vs explicit expansion: {what}", info, key=key, concrete=True)
         else:
             ctx.count(eng, "agreements")
-        if lp_diff and not any(v["concrete"] for v in ctx.violations):
+        if lp_diff:
+            pending_lp.append((cls, lp_diff, info))
+    # a broken LP correspondence: search the same classes harder for an input on which the property itself fails
+    if pending_lp and stream == "e2" and not any(v["concrete"] for v in ctx.violations):
+        e2_cases(ctx, 4 * per_class, classes=sorted({c for c, _, _ in pending_lp}), stream="e2search")
+    for cls, lp_diff, info in pending_lp:
+        if not any(v["concrete"] for v in ctx.violations):
             ctx.report(f"E1 correspondence broken: {cls} in node mode hands HiGHS a different LP than edge mode on the model's expansion: " + "; ".join(lp_diff[:3]),
                        {**info, "lp_diff": lp_diff}, concrete=False)
 
@@ -862,7 +895,8 @@ def replay(ctx, body):
         H = _graph_from(body["explicit"]["nodes"], body["explicit"]["edges"])
         fix = lambda kw: {k: ({"int": int, "float": float}[v] if k == "weight_type" else
                               ([[tuple(e) if isinstance(e, list) else e for e in c] for c in v] if k == cons_kw else
-                               ([tuple(e) if isinstance(e, list) else e for e in v] if k == "elements_to_ignore" else v)))
+                               ([tuple(e) if isinstance(e, list) else e for e in v] if k == "elements_to_ignore" else
+                                ({(tuple(a) if isinstance(a, list) else a): x for a, x in v} if k == "error_scaling" else v))))
                           for k, v in kw.items()}
         kw = fix(body["kwargs"]); ekw = fix(body["explicit"]["kwargs"])
         inst = {"starts": kw.get("additional_starts", []), "ends": kw.get("additional_ends", []), "ign": kw.get("elements_to_ignore", [])}
